@@ -699,7 +699,11 @@ fn replay_one<T: MomT>(h: &Value, ops: &[Op], specs: &[SlotSpec], cxs: &[Ctx], e
     let k = specs.len();
     rep.replays += 1;
     let mut w = World::<T>::new(k);
-    w.parity = parity;
+    // parity & 1: which Clone variant; parity & 2: every accessor of every object is also read after
+    // every step (a getter must not change what later steps compute: memoised results, lazily
+    // refreshed caches)
+    w.parity = parity % 2;
+    let reads_between = parity >= 2;
     let has_ckpt = ops.iter().any(|o| matches!(o, Op::Ckpt(_)));
     for (step, op) in ops.iter().enumerate() {
         // ---- C11: merge laws, implementation against implementation, bit for bit
@@ -752,6 +756,11 @@ fn replay_one<T: MomT>(h: &Value, ops: &[Op], specs: &[SlotSpec], cxs: &[Ctx], e
             continue;
         }
         apply(&mut w, op, e, false);
+        if reads_between {
+            for s in 0..k {
+                let _ = obs_bits(&w.slots[s]);
+            }
+        }
     }
     // ghost data must agree with the specification's (binding check)
     for s in 0..k {
@@ -769,7 +778,7 @@ fn replay_one<T: MomT>(h: &Value, ops: &[Op], specs: &[SlotSpec], cxs: &[Ctx], e
     // ---- C18: the same history with a serde round trip at every checkpoint
     if want.is("C18") && has_ckpt {
         let mut w1 = World::<T>::new(k);
-        w1.parity = parity;
+        w1.parity = parity % 2;
         for (step, op) in ops.iter().enumerate() {
             if let Op::Ckpt(s) = op {
                 let before = obs_bits(&w1.slots[*s]);
@@ -820,7 +829,13 @@ fn run_type<T: MomT>(h: &Value, ops: &[Op], specs: &[SlotSpec], cxs: &[Ctx], wan
     if !want.types.iter().any(|t| t == T::NAME) {
         return;
     }
-    let parities: &[usize] = if ops.iter().any(|o| matches!(o, Op::Clone(_, _))) { &[0, 1] } else { &[0] };
+    let clones = ops.iter().any(|o| matches!(o, Op::Clone(_, _)));
+    let parities: &[usize] = match (clones, ops.len() >= 2) {
+        (true, true) => &[0, 1, 2, 3],
+        (true, false) => &[0, 1],
+        (false, true) => &[0, 2],
+        (false, false) => &[0],
+    };
     for e in &want.embeddings {
         for &parity in parities {
             let r = std::panic::catch_unwind(std::panic::AssertUnwindSafe(|| replay_one::<T>(h, ops, specs, cxs, e, want, &mut *rep, parity)));
